@@ -386,9 +386,11 @@ fn exhaustive_subsets(ctx: &Ctx, q: usize, r: usize, n_orders: usize) {
 
 fn strategy(tier: Tier) -> BoxedStrategy<Case> {
     let qmax = tier.pick(6usize, 8usize);
-    (1usize..=qmax, prop_oneof![1usize..=8, Just(16usize), Just(32), Just(56)], prop_oneof![4 => Just(HKind::Ident), 2 => Just(HKind::Sip), 1 => (1u64..40).prop_map(HKind::Mod), 1 => any::<u64>().prop_map(HKind::Mix)])
+    // remainder widths: small ones, wide ones, and widths that make bits_quotient + bits_remainder 62, 63 or 64
+    // (codes >= 100 mean 64 - q - (code - 100))
+    (1usize..=qmax, prop_oneof![6 => 1usize..=8, 1 => Just(16usize), 1 => Just(32), 1 => Just(56), 1 => Just(100usize), 1 => Just(101), 1 => Just(102)], prop_oneof![4 => Just(HKind::Ident), 2 => Just(HKind::Sip), 1 => (1u64..40).prop_map(HKind::Mod), 1 => any::<u64>().prop_map(HKind::Mix)])
         .prop_flat_map(move |(q, r, hk)| {
-            let r = r.min(64 - q);
+            let r = if r >= 100 { 64 - q - (r - 100) } else { r.min(64 - q) };
             let cap = 1usize << q;
             let umax = (cap * 3 / 2 + 6).min(tier.pick(120, 400));
             let opmax = (cap * 2 + 8).min(tier.pick(200, 700));
@@ -417,7 +419,7 @@ pub fn checks() -> Vec<Box<dyn DynCheck>> {
 }
 
 pub fn run(ctx: &Ctx) {
-    ctx.set_rule("(a) exhaustive: with the Ident hasher every insertion sequence over all 2^(q+r) fingerprint values up to a length bound, and every subset of classes in several orders followed by one more insert of every class; (b) generated: q in 1..=6 (8 thorough), r in {1..8,16,32,56}, Ident/Sip/Mod/Mix hashers, universes of up to 1.5x capacity keys placed by (quotient, remainder) incl. ring-end quotients, insert histories up to 2x capacity. Oracle after every insert: result, len, is_empty and query of EVERY universe key (presence and absence) equal the behaviourally computed class-set model. Non-trivial: model holds >=3 classes with some run shifted from its canonical slot, or the table is full, or a cluster wraps past the last slot (exhaustive part: computed from the class set under Ident). Distinct = (q, r, ordered class sequence).");
+    ctx.set_rule("(a) exhaustive: with the Ident hasher every insertion sequence over all 2^(q+r) fingerprint values up to a length bound, and every subset of classes in several orders followed by one more insert of every class; (b) generated: q in 1..=6 (8 thorough), r in {1..8,16,32,56, 62-q, 63-q, 64-q}, Ident/Sip/Mod/Mix hashers, universes of up to 1.5x capacity keys placed by (quotient, remainder) incl. ring-end quotients, insert histories up to 2x capacity. Oracle after every insert: result, len, is_empty and query of EVERY universe key (presence and absence) equal the behaviourally computed class-set model. Non-trivial: model holds >=3 classes with some run shifted from its canonical slot, or the table is full, or a cluster wraps past the last slot (exhaustive part: computed from the class set under Ident). Distinct = (q, r, ordered class sequence).");
     ctx.assume("fingerprint classes computed behaviourally: x ~ y iff a fresh filter holding only x reports y (checked to be an equivalence)");
     ctx.run_regressions(&[&Random, &Seq]);
     let t = ctx.tier;
